@@ -551,6 +551,18 @@ def _pipeline_markers(prog, b, cs):
     return None
 
 
+def _helper_union_ok(prog, fb):
+    """find_supertypes_from_defs = union over the given defs of {def} + all_supertypes_of(def): loop, fold or flat_map spelling"""
+    cs2 = _calls(prog, fb)
+    ins2 = _find(cs2, "HashSet::insert")
+    sup2 = _find(cs2, "Namespace::all_supertypes_of")
+    ext2 = [c for c in cs2 if c[2].endswith("Extend>::extend")]
+    ret2 = repr(G.describe_place(fb, {"l": 0, "p": []}))
+    good = (len(ins2) == 1 and len(sup2) == 1 and len(ext2) == 1 and sup2[0][3][0] == "_1*" and sup2[0][3][1] == "haystack::defs::namespace::DefDict::def_symbol(%s)" % ins2[0][3][1]
+            and ins2[0][3][0] == ext2[0][3][0] and "Namespace::all_supertypes_of(" in ext2[0][3][1] and not _selects(ext2[0][3][1]) and "Iterator::collect(" in ret2 and ins2[0][3][0] in ret2 and not _selects(ret2))
+    return good or _flat_map_union(prog, cs2, ret2)
+
+
 def check_reflect(ctx, rep):
     prog = ctx.prog
     n = 0
@@ -578,6 +590,9 @@ def check_reflect(ctx, rep):
                 if any(c_ins[3][0] == e[3][0] and "Namespace::all_supertypes_of(" in e[3][1] and not _selects(e[3][1]) for e in ext_all):
                     union_ok = True
     fb0 = prog.get(NS + "find_supertypes_from_defs")
+    if not union_ok and fb0 is not None and mret and _helper_union_ok(prog, fb0) and strip_generics(fb0.id) in [strip_generics(mir.callee_name(t) or "") for _bi, t in prog.get(NS + "reflect").calls()]:
+        # the union is the helper's business (whatever its spelling: loop, fold, adaptor chain) and reflect hands its result on
+        union_ok = True
     if not union_ok and mret and "Iterator::flat_map(" in mret.group(1):
         # the closure of the spliced helper is the helper's: judge the step there
         if fb0 is not None and _flat_map_union(prog, _calls(prog, fb0), repr(G.describe_place(fb0, {"l": 0, "p": []}))):
@@ -652,15 +667,7 @@ def check_reflect(ctx, rep):
         pass  # written out inside reflect: covered by reflect:result above
     else:
         n += 1
-        cs2 = _calls(prog, fb)
-        ins2 = _find(cs2, "HashSet::insert")
-        sup2 = _find(cs2, "Namespace::all_supertypes_of")
-        ext2 = [c for c in cs2 if c[2].endswith("Extend>::extend")]
-        ret2 = repr(G.describe_place(fb, {"l": 0, "p": []}))
-        good = (len(ins2) == 1 and len(sup2) == 1 and len(ext2) == 1 and sup2[0][3][0] == "_1*" and sup2[0][3][1] == "haystack::defs::namespace::DefDict::def_symbol(%s)" % ins2[0][3][1]
-                and ins2[0][3][0] == ext2[0][3][0] and "Namespace::all_supertypes_of(" in ext2[0][3][1] and not _selects(ext2[0][3][1]) and "Iterator::collect(" in ret2 and ins2[0][3][0] in ret2 and not _selects(ret2))
-        if not good and _flat_map_union(prog, cs2, ret2):
-            good = True
+        good = _helper_union_ok(prog, fb)
         if good:
             _ok(rep, "reflect:supertypes-of-all", fb.where(), "result = union over defs of {def} + all_supertypes_of(def)")
         else:
